@@ -171,6 +171,18 @@ var modules = []Module{
 		},
 	},
 	{
+		// the three header checks of VerifyBeforeTxProcess that are plain arithmetic (C02)
+		File: "Header.lean", NS: "LemoGen.Header",
+		Exprs: []ExprSpec{
+			{Pkg: "chain/consensus", Func: "verifyHeight", Kind: "ifcond", LHS: "Height()", Nth: 0, Lean: "badHeightCond"},
+			{Pkg: "chain/consensus", Func: "verifyTime", Kind: "ifcond", LHS: "timeNow", Nth: 0, Lean: "futureCond"},
+			{Pkg: "chain/consensus", Func: "verifyExtraData", Kind: "ifcond", LHS: "MaxExtraDataLen", Nth: 0, Lean: "extraTooLongCond"},
+		},
+		Consts: []ConstSpec{
+			{Pkg: "chain/params", Name: "MaxExtraDataLen", Lean: "MaxExtraDataLen"},
+		},
+	},
+	{
 		File: "NetCache.lean", NS: "LemoGen.NetCache",
 		Exprs: []ExprSpec{
 			{Pkg: "network", Recv: "ConfirmCache", Func: "Push", Kind: "ifcond", LHS: "len(c.cache)", Nth: 0, Lean: "confirmCacheFlushCond"},
